@@ -104,6 +104,46 @@ run ttlsweep_flag_local C13 ractor/src/factory/queues.rs '            if queued_
         });
         let after = self.q.len();
         before - after' "--only-unit ttlsweep"
+run rpc_generic_reply_channel_helper C09 ractor/src/rpc.rs 'fn internal_call<F, TMessage, TReply, TMsgBuilder>(
+    sender: F,
+    msg_builder: TMsgBuilder,
+    timeout_option: Option<Duration>,
+) -> impl std::future::Future<Output = Result<CallResult<TReply>, MessagingErr<TMessage>>> + Send
+where
+    F: Fn(TMessage) -> Result<(), MessagingErr<TMessage>>,
+    TMessage: Message,
+    TMsgBuilder: FnOnce(RpcReplyPort<TReply>) -> TMessage,
+    TReply: Send + '"'"'static,
+{
+    let (tx, rx) = concurrency::oneshot();
+    let port: RpcReplyPort<TReply> = match timeout_option {
+        Some(duration) => (tx, duration).into(),
+        None => tx.into(),
+    };
+    let sent' 'fn reply_channel<TReply>(
+    timeout_option: Option<Duration>,
+) -> (RpcReplyPort<TReply>, concurrency::OneshotReceiver<TReply>) {
+    let (tx, rx) = concurrency::oneshot();
+    let port: RpcReplyPort<TReply> = match timeout_option {
+        Some(duration) => (tx, duration).into(),
+        None => tx.into(),
+    };
+    (port, rx)
+}
+
+fn internal_call<F, TMessage, TReply, TMsgBuilder>(
+    sender: F,
+    msg_builder: TMsgBuilder,
+    timeout_option: Option<Duration>,
+) -> impl std::future::Future<Output = Result<CallResult<TReply>, MessagingErr<TMessage>>> + Send
+where
+    F: Fn(TMessage) -> Result<(), MessagingErr<TMessage>>,
+    TMessage: Message,
+    TMsgBuilder: FnOnce(RpcReplyPort<TReply>) -> TMessage,
+    TReply: Send + '"'"'static,
+{
+    let (port, rx) = reply_channel(timeout_option);
+    let sent' "--only-unit rpc"
 (cd $wt && git checkout -q -- .)
 git -C /repo worktree remove --force $wt 2>/dev/null
 [ $fail -eq 0 ] && echo "harmless battery: all ok" || echo "harmless battery: FAILURES"
